@@ -5,6 +5,9 @@
 #include <sstream>
 #include <string.h>
 #include "../common/stdstreams.h"
+#ifdef GLS_CONTRACT
+#include "../common/gls_contract.h"   // GetLiteralStr replaced by its proven contract (C10 gls_equiv); Str.cc's own definition is renamed in the IR build
+#endif
 extern "C" {
 __attribute__((noinline)) int w_scan(int which, const char *bytes, long *pos, int *outlen) {
     std::istringstream in(bytes);
@@ -27,6 +30,13 @@ __attribute__((noinline)) int w_scan(int which, const char *bytes, long *pos, in
     *pos = verif_pos(in);
     *outlen = (int)s.size();
     return r * 16 + (int)e.severity() + 8;
+}
+// SkipInstance alone: returns 1 for SEVERITY_NULL (terminating semicolon found), 0 otherwise; *pos = stream position afterwards
+__attribute__((noinline)) int w_skip_instance(const char *bytes, long *pos) {
+    std::istringstream in(bytes); std::string s;
+    Severity r = SkipInstance(in, s);
+    *pos = verif_pos(in);
+    return r == SEVERITY_NULL ? 1 : 0;
 }
 // Str.cc case helpers with BUFSIZ-sized scratch buffers; returns length of the result, copies it to out
 __attribute__((noinline)) int w_strcase(int which, const char *word, char *out, int cap) {
